@@ -784,3 +784,16 @@ P('C20-F', 'C16', 'C16.R2'); P('C11-E', 'C11', 'C11.R1'); P('C16-E', 'C16', 'C16
 B('c16-error-hook-unicode-name-with-default', 'C16', edits=[
   (LEX, "import regex\n", "import regex\nimport unicodedata\n") if False else (LEX, "def t_error(t):\n    raise ParserError(f'Illegal character {t.value[0]}')",
    "def t_error(t):\n    import_name = t.value[0]\n    raise ParserError(f'Illegal character {import_name}')")])
+
+# ---- round 5 (value-flow changes that keep the visible structure)
+P('C01-G', 'C01', 'C01.R8'); P('C01-H', 'C01', 'C01.R7')
+P('C03-G', 'C03', 'C03.R4'); P('C03-H', 'C03', 'C03.R5')
+P('C09-G', 'C09', 'C09.R2')
+P('C10-G', 'C10', 'C10.R2'); P('C10-H', 'C02', 'C02.R3')
+P('C11-G', 'C11', 'C11.R1'); P('C11-H', 'C11', 'C11.R2')
+P('C12-G', 'C12', 'C12.R1'); P('C12-H', 'C12', 'C12.R1')
+P('C13-G', 'C13', 'C13.R1'); P('C13-H', 'C13', 'C13.R3')
+P('C16-G', 'C16', 'C16.R9'); P('C16-H', 'C16', 'C16.R9')
+P('C17-G', 'C17', 'C17.R2'); P('C17-H', 'C17', 'C17.R2')
+P('C18-G', 'C10', 'C10.R1'); P('C18-H', 'C18', 'C18.R1')
+B('c16-finally-guarded-delete', 'C16', SQP, "            return ast.eval(state)\n", "            try:\n                return ast.eval(state)\n            finally:\n                if '__tmp__' in scoped_names.scopes[-1]:\n                    del scoped_names.scopes[-1]['__tmp__']\n")
